@@ -486,7 +486,7 @@ def par_task(task: tuple) -> dict:
                                                             "trials": [(n, s.name, v) for n, s, v in ex["trials"]],
                                                             "raised": repr(ex["raised"])})
 
-    st = explore(run.execute, bound, on_exec, max_execs=20000)
+    st = explore(run.execute, bound, on_exec, max_execs=40000)
     if st["capped"]:
         part.add("caps_hit")
     part.add("states", len(outcomes))
@@ -579,7 +579,7 @@ def run(tier: str, replay: str | None = None) -> int:
     ]
     backends.cleanup_root()
     return ctx.finish(
-        exhaustive=True,
+        exhaustive=not ctx.cov.get("caps_hit"),
         rule="n_jobs=2: all pairs of 6 behaviours (+3-trial programs, stop callback) x all schedules up to the preemption bound; n_jobs=1: all behaviour tuples of length 2 (thorough 3) from a 54-entry menu on mem (singles elsewhere and for 2 objectives), x catch x callbacks x 6 hostile hooks; tell: trial state x 13 values x 6 state args x skip_if_finished",
     )
 
